@@ -85,6 +85,13 @@ func dischargeVC(vc *VC, workDir string, quickMs, slowMs int, sem chan struct{})
 	if nsess < 1 {
 		nsess = 1
 	}
+	if keepFiles {
+		var ix strings.Builder
+		for oi, o := range vc.obls {
+			ix.WriteString(fmt.Sprintf("%d %s\n", oi, o.Name))
+		}
+		os.WriteFile(base+".index.txt", []byte(ix.String()), 0o644)
+	}
 	var mu sync.Mutex
 	var wg1 sync.WaitGroup
 	for sidx := 0; sidx < nsess; sidx++ {
@@ -180,6 +187,9 @@ func dischargeVC(vc *VC, workDir string, quickMs, slowMs int, sem chan struct{})
 			// vacuity guard: E-matching alone rarely refutes; also ask the complete modes (short timeout)
 			if o.Result == "unsat" && o.PreReach == "" {
 				continue
+			}
+			if o.PreReach == "block" {
+				continue // block covers: the incremental session's answer is all we ask for
 			}
 			if o.PreReach != "" && o.Result != "unsat" && !siteCoversComplete {
 				continue // quick tier: call-site covers are decided by the E-matching session only
